@@ -589,6 +589,8 @@ func ruleErrUsed(w *World, r *Report, in map[*ssa.Function]bool) {
 				// tested?
 				if errTested(f, e, ee) {
 					r.Add(Obligation{Rule: "ERRUSED", Key: key, Pos: pos, Status: Discharged, Detail: "parse error is tested and the failing edge leads to failure returns only", Canary: can})
+				} else if why := overwrittenByNextIteration(f, ee); why != "" {
+					r.Add(Obligation{Rule: "ERRUSED", Key: key, Pos: pos, Status: Violated, Detail: "parse error is overwritten by the next iteration before it is read (" + why + "): only the error of the last field reaches the test after the loop, a malformed earlier field is read as 0 -- " + shortInstr(c), Canary: can})
 				} else if errFlowsOn(ee) {
 					// the error (or its comparison with nil) is carried on in a variable, returned, wrapped or
 					// handed to a helper: it is not dropped, the rule just cannot follow it
@@ -1225,6 +1227,72 @@ func failsAlong(f *ssa.Function, ret *ssa.Return, reach map[*ssa.BasicBlock]bool
 
 // errEdgeCanFail: some nil-test of the error has a non-nil edge from which a
 // failure return (or one whose error cannot be classified) is reachable.
+// overwrittenByNextIteration: the error value's only use is the loop-carried variable it is
+// assigned to (a phi at the head of the loop that contains the parse call, receiving the value
+// unmerged over the back edge), and neither the value nor that variable is compared inside the
+// loop: every iteration replaces what the previous one stored.
+func overwrittenByNextIteration(f *ssa.Function, ev ssa.Value) string {
+	var phi *ssa.Phi
+	for _, ref := range *ev.Referrers() {
+		switch x := ref.(type) {
+		case *ssa.Phi:
+			if phi != nil && phi != x {
+				return ""
+			}
+			phi = x
+		case *ssa.DebugRef:
+		default:
+			return "" // tested, stored, returned or passed on in place
+		}
+	}
+	if phi == nil {
+		return ""
+	}
+	evIn, ok := ev.(ssa.Instruction)
+	if !ok {
+		return ""
+	}
+	// the phi heads a loop that contains the call: it dominates the call's block and the call's
+	// block reaches it again
+	if !phi.Block().Dominates(evIn.Block()) || !reachableFrom(evIn.Block(), nil)[phi.Block()] {
+		return ""
+	}
+	inLoop := map[*ssa.BasicBlock]bool{}
+	for b := range reachableFrom(phi.Block(), nil) {
+		if reachableFrom(b, nil)[phi.Block()] {
+			inLoop[b] = true
+		}
+	}
+	// every back edge hands the fresh value over as it is
+	back := 0
+	for i, p := range phi.Block().Preds {
+		if !inLoop[p] {
+			continue
+		}
+		back++
+		if phi.Edges[i] != ev {
+			return ""
+		}
+	}
+	if back == 0 {
+		return ""
+	}
+	// the carried variable is not looked at inside the loop
+	for _, ref := range *phi.Referrers() {
+		in, ok := ref.(ssa.Instruction)
+		if !ok {
+			continue
+		}
+		if _, isDbg := ref.(*ssa.DebugRef); isDbg {
+			continue
+		}
+		if inLoop[in.Block()] {
+			return ""
+		}
+	}
+	return "loop-carried " + phi.Name() + " " + phi.Comment
+}
+
 // errEdgeRecords: the non-nil edge of a test of ev, inside a function literal, stores to a
 // captured variable or calls a closure / function value.
 func errEdgeRecords(f *ssa.Function, ev ssa.Value) bool {
